@@ -555,7 +555,41 @@ fn main() {
             #[cfg(chess_verif_shuttle)]
             let (best, execs) = sched::shrink(&rf.plan, &class, budget.min(12));
             #[cfg(not(chess_verif_shuttle))]
-            let (best, execs) = plan::shrink(&rf.plan, &class, budget, |p| exec(p).violation.map(|v| v.class));
+            let (best, execs) = {
+                let (mut best, mut execs) = plan::shrink(&rf.plan, &class, budget, |p| exec(p).violation.map(|v| v.class));
+                // simpler start position: pieces that play no part are taken off the board
+                if let Some(start) = model::Pos::from_fen(&best.start_fen) {
+                    let mut cur = start;
+                    for s in 0..64usize {
+                        if execs >= budget + 64 {
+                            break;
+                        }
+                        match cur.sq[s] {
+                            Some((p, _)) if p != model::P::King => {}
+                            _ => continue,
+                        }
+                        let mut cand_pos = cur.clone();
+                        cand_pos.sq[s] = None;
+                        // rights that the placement no longer supports go with the piece
+                        for (bit, k, r, side) in [(model::WK, 4usize, 7usize, model::Side::White), (model::WQ, 4, 0, model::Side::White), (model::BK, 60, 63, model::Side::Black), (model::BQ, 60, 56, model::Side::Black)] {
+                            if cand_pos.rights & bit != 0 && !(cand_pos.sq[k] == Some((model::P::King, side)) && cand_pos.sq[r] == Some((model::P::Rook, side))) {
+                                cand_pos.rights &= !bit;
+                            }
+                        }
+                        if !cand_pos.is_consistent() {
+                            continue;
+                        }
+                        let mut cand = best.clone();
+                        cand.start_fen = cand_pos.to_fen();
+                        execs += 1;
+                        if exec(&cand).violation.map(|v| v.class).as_deref() == Some(class.as_str()) {
+                            best = cand;
+                            cur = cand_pos;
+                        }
+                    }
+                }
+                (best, execs)
+            };
             // final confirmation + detail of the minimised run
             let o = exec(&best);
             match o.violation {
